@@ -181,6 +181,7 @@ impl Family for C13 {
       let shared_obs = conn.observable();
       let get_obs = |c: &Conn| if share { shared_obs.clone() } else { c.observable() };
       let mut pos = 0usize;
+      let (mut connected_h, mut done_h) = (false, false);
       for op in &ops2 {
         match op {
           Op::Sub(i) => {
@@ -202,20 +203,27 @@ impl Family for C13 {
           }
           Op::Connect => {
             if let Conn::Publish(p) = &conn {
-              if connection.is_none() {
+              // the first connect; or, over a hot source that has not ended, a new connection after
+              // the previous one was unsubscribed (connect, disconnect, connect)
+              if connection.is_none() || (sm2 == "hot" && !connected_h && !done_h) {
                 connection = Some(p.connect());
+                connected_h = true;
               }
             }
           }
           Op::Disconnect => {
             if let Some(c) = &connection {
               c.unsubscribe();
+              connected_h = false;
             }
           }
           Op::Emit => {
             if sm2 == "hot" && pos < script2.len() {
               let st = script2[pos].clone();
               pos += 1;
+              if connected_h && !matches!(st, Step::N(_)) {
+                done_h = true;
+              }
               hot.step_all(&st);
             }
           }
@@ -325,7 +333,7 @@ impl Family for C13 {
             live[*i] = false;
           }
           Op::Connect => {
-            if kind == "publish" && !connect_used {
+            if kind == "publish" && (!connect_used || (!cold && !connected && !src_done)) {
               connect_used = true;
               connected = true;
               exp_src_subs = 1;
